@@ -501,3 +501,31 @@ Proof.
     + destruct (Hk p Hp). lia.
     + lia.
 Qed.
+
+(** ---- page CONTENT of a full-database encoding --------------------------------------------- *)
+
+Lemma pm_get_map_self {V} (f : N -> V) (l : list N) pg :
+  pm_get pg (map (fun p => (p, f p)) l) = if memN pg l then Some (f pg) else None.
+Proof.
+  induction l as [|q tl IH]; simpl; [reflexivity|].
+  destruct (N.eqb_spec pg q) as [->|Hne]; simpl; [reflexivity|exact IH].
+Qed.
+
+(** every page of [1..commit] other than the lock page is encoded from its own
+    source — the WAL frame the page map names, else the database file at
+    (pgno-1)*pageSize — and nothing else is encoded *)
+Lemma db_content_spec ps commit pm pg :
+  pm_get pg (db_content ps commit pm) =
+  if (1 <=? pg) && (pg <=? commit) && negb (pg =? lockPgno ps) then Some (db_source ps pm pg) else None.
+Proof.
+  unfold db_content. rewrite pm_get_map_self.
+  destruct (memN pg (db_pgnos (lockPgno ps) commit)) eqn:E.
+  - apply memN_In in E. apply db_pgnos_In in E. destruct E as [[H1 H2] H3].
+    destruct (N.leb_spec 1 pg); [|lia]. destruct (N.leb_spec pg commit); [|lia].
+    destruct (N.eqb_spec pg (lockPgno ps)); [contradiction|reflexivity].
+  - destruct (N.leb_spec 1 pg); simpl; [|reflexivity].
+    destruct (N.leb_spec pg commit); simpl; [|reflexivity].
+    destruct (N.eqb_spec pg (lockPgno ps)); simpl; [reflexivity|].
+    exfalso. assert (In pg (db_pgnos (lockPgno ps) commit)) by (apply db_pgnos_In; lia).
+    apply memN_In in H1. congruence.
+Qed.
